@@ -15,7 +15,7 @@ func init() {
 		RecordStubs: []string{vm.RepoModule + "/internal/lsp.SendNotification"},
 		Cases: func(tier string) []Case {
 			var cases []Case
-			methods := []string{"didOpen", "didChange1", "didChange2", "hover", "definition", "documentSymbol", "other"}
+			methods := []string{"didOpen", "didChange1", "didChange2", "didChange0", "hover", "definition", "documentSymbol", "other"}
 			for p1 := 0; p1 <= 3; p1++ {
 				for p2 := 0; p2 <= 3; p2++ {
 					if tier != "thorough" && (p1+p2)%2 == 1 && p1 != 0 {
@@ -57,8 +57,8 @@ func init() {
 			return cases
 		},
 		Bounds: stdBounds(
-			map[string]interface{}{"pre_states": "10 of the 16 states over 2 URIs x {closed, 3 texts} satisfying the invariant", "requests": "7 kinds x 3 URIs x texts of a 3-text alphabet (1-2 content changes)", "cursor": "every line/character in [0, 2^31] (symbolic)", "histories": "any length, by one inductive step from an arbitrary invariant state"},
-			map[string]interface{}{"pre_states": "all 16", "requests": "7 kinds x 3 URIs x all text pairs", "cursor": "symbolic"}),
+			map[string]interface{}{"pre_states": "10 of the 16 states over 2 URIs x {closed, 3 texts} satisfying the invariant", "requests": "8 kinds x 3 URIs x texts of a 3-text alphabet (0-2 content changes)", "cursor": "every line/character in [0, 2^31] (symbolic)", "histories": "any length, by one inductive step from an arbitrary invariant state"},
+			map[string]interface{}{"pre_states": "all 16", "requests": "8 kinds x 3 URIs x all text pairs", "cursor": "symbolic"}),
 		Assumptions: []string{
 			"inductive invariant: every stored document is (latest text, CheckSource(latest text)); it holds initially (no document) and is asserted after the step",
 			"json.Marshal/Unmarshal are value-carrying stubs (same Go type on both sides); message framing and the stdio loop are outside",
